@@ -9,6 +9,7 @@ the decoy files that must never appear in a response.
 
 import hashlib
 import itertools
+import re
 import multiprocessing as mp
 import os
 import shutil
@@ -23,7 +24,7 @@ CANARY = "XV-CANARY-7f3a"
 
 TRAVERSAL = ["..", "%2e%2e", "%2E%2e", ".%2e", "..%2f", "%2e%2e%2f"]
 SEGMENTS = TRAVERSAL + [".", "%2f", "", "user", "calendars", "calendar", "sibling", "secret.ics", "x", "a" * 300, "root-evil"]
-METHODS = ["GET", "HEAD", "PUT", "POST", "DELETE", "MKCOL", "MKCALENDAR", "PROPFIND", "PROPPATCH", "REPORT"]
+METHODS = ["GET", "HEAD", "PUT", "POST", "DELETE", "MKCOL", "MKCALENDAR", "PROPFIND", "PROPPATCH", "PROPPATCH:settings", "REPORT"]
 
 
 def make_sandbox(base):
@@ -114,6 +115,11 @@ def request_for(method, target, prefix):
     elif method == "PROPPATCH":
         hdr = dict(dav.XML_CT)
         body = dav.proppatch_body(sets=[(dav.P_DISPLAYNAME, "pwned")])
+    elif method == "PROPPATCH:settings":
+        # properties that are kept in files of their own (client settings on principals), colours, descriptions
+        method = "PROPPATCH"
+        hdr = dict(dav.XML_CT)
+        body = dav.proppatch_body(sets=[("{http://inf-it.com/ns/dav/}settings", CANARY + " settings"), (dav.P_CALCOLOR, "#123456"), (dav.P_CALDESC, CANARY + " description")])
     elif method == "REPORT":
         # the adversarial path is the href inside a multiget sent to the real calendar
         hdr = dict(dav.XML_CT, Depth="1")
@@ -132,7 +138,10 @@ class Front:
         self.outer, self.root, self.absd = make_sandbox(self.base)
         self.template = os.path.join(self.base, "root-template")
         shutil.copytree(self.root, self.template, symlinks=True)
-        self.watched = [self.outer, self.absd]
+        # the process-wide scratch directory ($TMPDIR) is outside the data directory too, and is watched
+        self.tmpdir = os.path.join(self.base, "tmpdir")
+        os.mkdir(self.tmpdir)
+        self.watched = [self.outer, self.absd, self.tmpdir]
         self.log = None
         self.logpos = 0
         self.world = None
@@ -143,8 +152,13 @@ class Front:
             self.log = os.path.join(self.base, "events.log")
             open(self.log, "w").close()
             self.logpos = 0
-            self.world = http.ProcWorld(self.root, prefix=self.prefix, audit=(self.log, self.watched))
+            self.world = http.ProcWorld(self.root, prefix=self.prefix, audit=(self.log, self.watched), extra_env={"TMPDIR": self.tmpdir})
         else:
+            import tempfile
+
+            os.environ["TMPDIR"] = self.tmpdir
+            tempfile.tempdir = None
+            tempfile.gettempdir()  # (Python probes a new scratch directory with a throw-away file: do that now, not inside a request)
             self.mon = fsaudit.install(self.watched)
             if self.kind == "aio":
                 self.world = http.AioWorld(self.root, prefix=self.prefix)
@@ -289,6 +303,28 @@ def _worker(args):
             outside = [e for e in events if not (e[1] == fr.root or e[1].startswith(fr.root + os.sep))]
             stats["events_inside_root"] += len(events) - len(outside)
             where = "multiget-href" if method == "REPORT" else "body-uid" if ":uid-" in method else "request-target"
+            # $TMPDIR: dulwich writes every commit message to a mkstemp() file there (commit-msg hook plumbing) and removes it
+            # again; that one pattern is a known finding of its own, anything else in $TMPDIR is reported like any other place
+            tmp_ev = [e for e in outside if e[1].startswith(fr.tmpdir + os.sep) or e[1] == fr.tmpdir]
+            if tmp_ev:
+                outside = [e for e in outside if e not in tmp_ev]
+                byfile = {}
+                for e in tmp_ev:
+                    byfile.setdefault(e[1], []).append(e[0])
+                for pth, kinds_ in byfile.items():
+                    bn = os.path.basename(pth)
+                    left = os.path.exists(pth)
+                    if re.match(r"^[a-z0-9_]{8}$", bn) and set(kinds_) <= {"open", "os.remove"} and not left:
+                        continue  # tempfile's own writability probe of $TMPDIR (first use in a process; the file holds the word "blat")
+                    if re.match(r"^tmp[a-z0-9_]{8}$", bn) and set(kinds_) <= {"open", "os.remove"} and "os.remove" in kinds_ and not left:
+                        vio("scratch-directory:commit-message-temp-file", "%s %s: a file with the commit message (it names the uploaded object) was created in $TMPDIR and removed again" % (method, path), {"method": method, "path": path, "file": bn, "events": kinds_})
+                    else:
+                        vio("scratch-directory:%s:%s:%s%s" % (method, where, "+".join(sorted(set(kinds_))), ":left-behind" if left else ""), "%s %s made the server %s a file in $TMPDIR (%s)%s" % (method, path, sorted(set(kinds_)), re.sub(r"[a-z0-9_]{8}", "XXXXXXXX", bn), ", still there after the request" if left else ""), {"method": method, "path": path, "status": r.status, "file": bn})
+                        if left:
+                            try:
+                                os.unlink(pth)
+                            except OSError:
+                                pass
             if outside:
                 kinds = sorted({e[0] for e in outside})
                 vio("fs-access-outside-root:%s:%s:%s" % (method, where, "+".join(kinds)), "%s %s made the server %s %s" % (method, path, kinds, sorted({e[1].replace(fr.base, "<sandbox>") for e in outside})[:3]), {"method": method, "path": path, "status": r.status, "events": [(e[0], e[1].replace(fr.base, "<sandbox>"), e[2]) for e in outside[:6]]})
